@@ -70,11 +70,32 @@ impl SourceMap {
     #[verifier::external_body]
     pub fn emit(&mut self, instruction_index: usize, current_line: Line) { unimplemented!() }
 }
-pub struct DebugInfo { pub source_map: SourceMap }
+// names, types, and the scoped variable map of FunctionEnv projected on a ghost view: the slot a name currently denotes
+#[verifier::external_body] pub struct Symbol { _p: () }
+impl Clone for Symbol { #[verifier::external_body] fn clone(&self) -> (r: Symbol) ensures r == *self { unimplemented!() } }
+#[verifier::external_body] pub struct ArcType { _p: () }
+impl Clone for ArcType { #[verifier::external_body] fn clone(&self) -> (r: ArcType) ensures r == *self { unimplemented!() } }
+// `a != b` on Symbol (derived/hand-written PartialEq, no specification needed here)
+#[verifier::external_body] pub fn sym_ne(a: &Symbol, b: &Symbol) -> bool { unimplemented!() }
+#[verifier::external_body] pub struct VarMap { _p: () }
+impl VarMap {
+    pub uninterp spec fn slot(&self, s: Symbol) -> Option<VmIndex>;
+    // base::scoped_map::ScopedMap::insert: the name now denotes the new entry, other names are unaffected (ASSUMED)
+    #[verifier::external_body]
+    pub fn insert(&mut self, s: Symbol, v: (VmIndex, ArcType))
+        ensures final(self).slot(s) == Some(v.0), forall|t: Symbol| t != s ==> final(self).slot(t) == old(self).slot(t)
+    { unimplemented!() }
+}
+#[verifier::external_body] pub struct LocalMap { _p: () }
+impl LocalMap {
+    #[verifier::external_body]
+    pub fn emit(&mut self, instruction_index: usize, index: VmIndex, s: Symbol, typ: ArcType) { unimplemented!() }
+}
+pub struct DebugInfo { pub source_map: SourceMap, pub local_map: LocalMap }
 
 // CompiledFunction / FunctionEnv projected to the fields the extracted bodies touch
 pub struct CompiledFunction { pub max_stack_size: VmIndex, pub instructions: Vec<Instruction>, pub debug_info: DebugInfo }
-pub struct FunctionEnv { pub stack_size: VmIndex, pub current_line: Line, pub emit_debug_info: bool, pub function: CompiledFunction }
+pub struct FunctionEnv { pub stack: VarMap, pub stack_size: VmIndex, pub current_line: Line, pub emit_debug_info: bool, pub function: CompiledFunction }
 
 impl FunctionEnv {
     // invariant of the static stack accounting: the recorded maximum dominates the current size
@@ -125,7 +146,8 @@ pub fn rt_panic() -> !
 pub uninterp spec fn expr_id(e: Expr) -> int;
 #[verifier::external_body] pub struct CErr { _p: () }
 // the recursive compiler, opaque; a ghost log records every sub-expression compiled and with which tail flag
-#[verifier::external_body] pub struct Compiler { _p: () }
+#[verifier::external_body] pub struct CompilerRest { _p: () }
+pub struct Compiler { pub empty_symbol: Symbol, pub rest: CompilerRest }
 impl Compiler {
     pub uninterp spec fn log(&self) -> Seq<(int, bool)>;
     // ASSUMED contract of Compiler::compile on a sub-expression: appends code only (everything emitted before stays),
